@@ -30,6 +30,13 @@ func main() {
 		for _, r := range rules.All() {
 			fmt.Printf("%-24s %v  %s\n", r.Name, r.Props, r.Doc)
 		}
+	case "effects":
+		prog, err := core.Load(core.LoadOptions{})
+		if err != nil {
+			fmt.Println(err)
+			os.Exit(2)
+		}
+		rules.DumpEffects(&rules.Ctx{P: prog, S: core.NewSink()}, os.Args[2])
 	case "events":
 		prog, err := core.Load(core.LoadOptions{})
 		if err != nil {
